@@ -4,6 +4,9 @@ import (
 	"go/ast"
 	"go/token"
 	"go/types"
+	"strings"
+
+	"bebopverif/internal/wire"
 
 	"bebopverif/internal/load"
 
@@ -66,7 +69,10 @@ func isMethodCall(n ast.Node, recv, name string) bool {
 		return false
 	}
 	id, ok := ast.Unparen(sel.X).(*ast.Ident)
-	return ok && (recv == "" || id.Name == recv)
+	// "tr" is this code base's name for the token reader; its method names
+	// (Next, UnNext, Token, Err, readByte, unreadByte) are unique in the files
+	// these rules look at, so any identifier is accepted as the receiver
+	return ok && (recv == "" || recv == "tr" || id.Name == recv)
 }
 
 func containsCall(n ast.Node, pred func(*ast.CallExpr) bool) bool {
@@ -189,4 +195,59 @@ func funcReturnsError(pkg *packages.Package, fd *ast.FuncDecl) bool {
 	}
 	res := obj.Type().(*types.Signature).Results()
 	return res.Len() > 0 && isErrorType(res.At(res.Len()-1).Type())
+}
+
+
+// roleInfo is the type information of package bebop of the program being
+// analysed (set by loadRepo). trCanon renders an expression like wire.Canon
+// but spells every variable by its role where the rules compare against a
+// spelling: a *tokenReader is "tr", whatever the code calls it.
+var roleInfo *types.Info
+
+func trCanon(e ast.Expr) string {
+	s := wire.Canon(e)
+	if roleInfo == nil || e == nil {
+		return s
+	}
+	ren := map[string]string{}
+	ast.Inspect(e, func(n ast.Node) bool {
+		if id, ok := n.(*ast.Ident); ok {
+			if o := roleInfo.ObjectOf(id); o != nil {
+				if _, isVar := o.(*types.Var); isVar && strings.HasSuffix(o.Type().String(), ".tokenReader") && id.Name != "tr" {
+					ren[id.Name] = "tr"
+				}
+			}
+		}
+		return true
+	})
+	if len(ren) == 0 {
+		return s
+	}
+	return renameWords(s, ren)
+}
+
+// renameWords replaces whole identifiers that are not selector field names.
+func renameWords(s string, ren map[string]string) string {
+	var b strings.Builder
+	i := 0
+	isStart := func(c byte) bool { return c == '_' || (c >= 'a' && c <= 'z') || (c >= 'A' && c <= 'Z') }
+	for i < len(s) {
+		c := s[i]
+		if isStart(c) {
+			j := i
+			for j < len(s) && (isStart(s[j]) || (s[j] >= '0' && s[j] <= '9')) {
+				j++
+			}
+			w := s[i:j]
+			if to, ok := ren[w]; ok && (i == 0 || s[i-1] != '.') {
+				w = to
+			}
+			b.WriteString(w)
+			i = j
+			continue
+		}
+		b.WriteByte(c)
+		i++
+	}
+	return b.String()
 }
